@@ -87,6 +87,8 @@ pub struct RunResult {
     /// real-membership mode: at quiescent points, where a subscriber's added-up deltas differ from
     /// the membership layer's own view
     pub membership_diffs: Vec<String>,
+    /// per node: where reads through the store handle differ from the node's store at quiescence
+    pub read_diffs: BTreeMap<u8, Vec<String>>,
 }
 
 /// real-membership mode: (node -> ids the membership layer reports, with addresses)
@@ -440,6 +442,10 @@ pub fn run_cluster(sc: &Scenario, prop: &str) -> Result<RunResult, String> {
     }
     // every node compares its keyspace sets with its store (C02's oracle, at quiescence)
     let up_now: Vec<u8> = cl.shared.borrow().up.iter().copied().collect();
+    // the faults are over: the reads of the snapshot must not run into a planned read failure
+    for st in cl.shared.borrow().stores.values() {
+        st.st.lock().read_faults.clear();
+    }
     for n in &up_now {
         cl.send_cmd(*n, Cmd::Snapshot { snap_id: 1 });
     }
@@ -496,15 +502,22 @@ pub fn run_cluster(sc: &Scenario, prop: &str) -> Result<RunResult, String> {
     let ops = sh.ops.clone();
     let views_hist = sh.views_hist.clone();
     let set_store_diffs: BTreeMap<u8, Vec<String>> = sh.snapshots.iter().filter(|((s, _), _)| *s == 1).map(|((_, n), d)| (*n, d.clone())).collect();
+    let read_diffs: BTreeMap<u8, Vec<String>> = sh.read_diffs.iter().filter(|((s, _), _)| *s == 1).map(|((_, n), d)| (*n, d.clone())).collect();
     let _ = active_end;
     let cfg = sc.cfg.clone();
     drop(sh);
     drop(cl);
-    Ok(RunResult { out, ops, issued, final_rows, cfg, views_hist, set_store_diffs, membership_diffs })
+    Ok(RunResult { out, ops, issued, final_rows, cfg, views_hist, set_store_diffs, membership_diffs, read_diffs })
 }
 
 /// The C01 oracle.
 pub fn judge_convergence(r: &mut RunResult) {
+    // "return ... from reads": what the store handle returns is what the node's store holds
+    for (n, diffs) in r.read_diffs.clone() {
+        if !diffs.is_empty() {
+            r.out.violate("C01/read-through-handle-differs-from-store", format!("node {n}: {}", diffs.iter().take(4).cloned().collect::<Vec<_>>().join("; ")));
+        }
+    }
     let want = lww(&r.issued);
     let data_of: BTreeMap<(String, u64, u64), Option<Vec<u8>>> = r.issued.iter().map(|i| ((i.ks.clone(), i.id, i.ts.as_u64()), i.data.clone())).collect();
     let nodes: Vec<u8> = r.final_rows.keys().copied().collect();
